@@ -5,9 +5,15 @@ sys.path.insert(0, os.path.dirname(os.path.abspath(__file__)))
 from vlib import *
 
 def dispatch(prop):
-    if prop in ('C02', 'C03', 'C20'):
+    if prop in ('C02', 'C03', 'C04', 'C20'):
         import p_hunks
         return p_hunks.check
+    if prop == 'C01':
+        import p_diff
+        return p_diff.check
+    if prop == 'C07':
+        import p_dist
+        return p_dist.check
     raise ToolError('no check for ' + prop)
 
 def main():
